@@ -28,7 +28,7 @@ def rule_hold(ctx, tab, rule="R2"):
                    "at an exact cycle multiple the position must be held at the end of the pass: exact rewriting "
                    "(d/d -> 1 for finite d > 0) of %s gives %s, expected %s" % (show(r.pos), show(e), want),
                    tab["body"]["span"], trace_of(r.path), what="end-of-pass-not-held")
-    ctx.floor(rule, "hold rows (rem == 0 and quot >= 1)", n, 4)
+    ctx.floor(rule, "hold rows (rem == 0 and quot >= 1)", n, 2)
     # and the rule must exist for every repeating variant: a repeating row whose cycle time is the plain remainder
     # must be guarded by "not an exact multiple, or still in the first cycle"
     for r in tab["rows"]:
@@ -57,7 +57,7 @@ def rule_ended(ctx, tab, rule="R3"):
         ctx.ob(rule, "ended-position/" + r.label, intervals.fval(r.pos) == want and r.reverse in (0, 1),
                "the terminal position must be the constant %s (reverse=%s); it is %s" % (want, r.reverse, show(r.pos)),
                tab["body"]["span"], trace_of(r.path), what="terminal-position-wrong")
-    ctx.floor(rule, "Ended rows", n, 4)
+    ctx.floor(rule, "Ended rows", n, 2)
 
 
 def check(ctx):
